@@ -6,7 +6,7 @@ set -u
 id=$1; wt=$2; pkg=$3; demo=$4; pat=$5; shift 5
 export GOFLAGS=-mod=mod GOPROXY=off
 cd $wt || exit 2
-git stash -q 2>/dev/null; git checkout -q -- . ; git apply demo/patch.diff || { echo "patch does not apply"; exit 2; }
+git checkout -q -- . ; git apply demo/patch.diff || { echo "patch does not apply"; exit 2; }
 cp demo/$demo go/$pkg/zz_demo_verif_test.go
 (cd go && go test -count=1 -run "$pat" ./$pkg/ > /tmp/seeded-$id-with.log 2>&1); with=$?
 git checkout -q -- . 
